@@ -72,6 +72,17 @@ def run_case(seed):
 
     pf = gen.gen_plotfile(rng, ndims=2, payload=rng.choice(['ints', 'random', 'special']),
                           max_blocks=3, nfields=(1, 6), odd0=0.35)
+    rt = random.Random(seed * 3301 + 29)
+    twin = None
+    if len(pf.fields) >= 2 and rt.random() < 0.2:
+        # a bracketed name and, later in the Header, the name mandoline's file-name sanitising would turn it into: two fields
+        a, b = sorted(rt.sample(range(len(pf.fields)), 2))
+        br = rt.choice(['Y(H2)', 'Y(OH)', 'I_R(H2)', 'D(N2)'])
+        tw = br.replace('(', '_').replace(')', '')
+        if br not in pf.fields and tw not in pf.fields:
+            pf.fields[a], pf.fields[b] = br, tw
+            twin = tw
+    count(f"a field named like the sanitised form of an earlier one={twin is not None}")
     keys = c01.reader_keys(pf.fields)
     path = core.scratch_dir(f"c08_{seed}")
     gen.write_plotfile(pf, path)
@@ -82,6 +93,8 @@ def run_case(seed):
         count(f"layout={lk}")
     for k in range(3):
         fkind, fields = gen_fields_arg(rng, keys)
+        if twin and k == 0:
+            fkind, fields = 'the sanitised twin', rt.choice([[twin], [twin, keys[0]], ['grid_level', twin]])
         limit_arg = rng.choice([None] + list(range(pf.nlevels)))
         L = pf.nlevels - 1 if limit_arg is None else limit_arg
         serial = rng.random() < 0.4
